@@ -49,6 +49,36 @@ Theorem C18_costconv_step :
     /\ avg s' = div (add (mul (ofN (m - 1)%N) (avg s)) cost) (ofN m) /\ solutions s' = N.succ (solutions s).
 Proof. intros. repeat split. Qed.
 
+(* ... and for EVERY further sequence of reported solution costs: once fired it never reverts, the
+   solution counter counts every report, and it cannot fire before `window` solutions were seen *)
+Theorem C18_costconv_sticky_and_counts :
+  forall (T : Type) add mul div sub ltb ofN one window eps (costs : list T) (s : cc T),
+    let s' := fold_left (cc_step T add mul div sub ltb ofN one window eps) costs s in
+    (fired s = true -> fired s' = true) /\ solutions s' = (solutions s + N.of_nat (length costs))%N.
+Proof.
+  intros T add mul div sub ltb ofN one window eps costs.
+  induction costs as [|c cs IH]; intros s; cbn [fold_left length].
+  - split; [auto | lia].
+  - destruct (IH (cc_step T add mul div sub ltb ofN one window eps s c)) as [F S]. split.
+    + intros Hf. apply F. unfold cc_step. cbn [fired]. rewrite Hf. reflexivity.
+    + rewrite S. unfold cc_step. cbn [solutions]. lia.
+Qed.
+
+Theorem C18_costconv_not_before_window :
+  forall (T : Type) add mul div sub ltb ofN one window eps (costs : list T) (s : cc T),
+    fired s = false -> (solutions s + N.of_nat (length costs) < window)%N ->
+    fired (fold_left (cc_step T add mul div sub ltb ofN one window eps) costs s) = false.
+Proof.
+  intros T add mul div sub ltb ofN one window eps costs.
+  induction costs as [|c cs IH]; intros s Hf Hlt; cbn [fold_left length] in *.
+  - exact Hf.
+  - apply IH.
+    + unfold cc_step. cbn [fired]. rewrite Hf. cbn [orb].
+      replace (N.eqb (N.min (N.succ (solutions s)) window) window) with false; [reflexivity|].
+      symmetry. apply N.eqb_neq. lia.
+    + unfold cc_step. cbn [solutions]. lia.
+Qed.
+
 Print Assumptions C18_predicate_exact.
 Print Assumptions C18_terminate_sticky.
 Print Assumptions C18_or_exact.
@@ -70,3 +100,5 @@ Proof. vm_compute. reflexivity. Qed.
 Example C18_iteration_wrap_orig_refuted :
   iter_eval_orig 5 4294967294 = (true, 4294967295%N) /\ iter_eval_orig 5 4294967295 = (false, 0%N).
 Proof. vm_compute. split; reflexivity. Qed.
+Print Assumptions C18_costconv_sticky_and_counts.
+Print Assumptions C18_costconv_not_before_window.
